@@ -19,7 +19,7 @@ class Contract:
     def __init__(self, key, params=None, returns=None, requires=(), ensures=(), modifies=(), raises=None,
                  may_raise=(), loops=None, allocates=False, virtual=False, trusted=None, locals=None,
                  ensures_raise=None, note=None, self_cls=None, yields=None, pure=False, ghost_init=(), ghost_after=None,
-                 ghost_before=None, internal_ensures=(), assumed_ensures=()):
+                 ghost_before=None, internal_ensures=(), assumed_ensures=(), slice_names=None):
         self.key = key                      # 'module.func' or 'Class.method'
         self.params: Dict[str, str] = dict(params or {})
         self.returns: Optional[str] = returns
@@ -43,6 +43,8 @@ class Contract:
         self.ghost_before: Dict[str, List[str]] = dict(ghost_before or {})
         self.internal_ensures: List[str] = list(internal_ensures)  # checked for the body only (may use ghost locals)
         self.assumed_ensures: List[str] = list(assumed_ensures)    # coupling facts assumed at call sites only (trusted)
+        # def-use slice: verify only the top-level statements of the body that assign one of these names
+        self.slice_names = list(slice_names) if slice_names else None
 
 
 class Registry:
@@ -56,6 +58,7 @@ class Registry:
         self.inline_deny: set = set()
         self.targets: List[str] = []            # qualnames to verify
         self.side_checks = []                   # callables(repo) -> list of error strings (mechanical premises)
+        self.getattr_templates: Dict[str, str] = {}
 
     def contract(self, key, **kw) -> Contract:
         c = Contract(key, **kw)
@@ -88,4 +91,5 @@ class Registry:
             r.opaque_names |= src.opaque_names
             r.inline_deny |= src.inline_deny
             r.side_checks.extend(c for c in src.side_checks if c not in r.side_checks)
+            r.getattr_templates.update(src.getattr_templates)
         return r
